@@ -22,8 +22,10 @@ COQ_TARGETS = ['model/C04_Model.v']
 SIG_F3 = 'gridding-zero-length-segment-fraction-zero'
 SIG_F20 = 'gridding-index-minus-one-wraps-to-last-grid-value'
 SIG_DL = 'gridding-antimeridian-met-at-start-latitude'
+SIG_Z = 'gridding-zero-length-antimeridian-segment-nan'
 
 PI = math.pi
+LAT_MAX = 1.55        # generated latitudes stay within +-88.8 degrees
 EPS_T = 1e-9          # pieces shorter than this (in the segment's parameter) are degenerate for the oracle
 TOL_SHARE = 1e-8      # absolute tolerance on shares (fractions of a segment)
 
@@ -90,27 +92,39 @@ def run_impl(case, states, ints):
 
 
 def instrumented(case):
-    """The case's variables plus one state variable carrying the point number and one integrated variable equal
-    to 1 on every segment: the implementation's own output then tells which segment a piece belongs to and
-    which share of the segment it received."""
+    """The case's variables plus one state variable carrying the point number and two integrated variables:
+    segment number + 1, and 1 on every segment.  The implementation's own output then tells which segment a
+    piece belongs to (C05: from the state variable; C04: from the ratio of the two integrated variables, so that
+    a defect in the state values does not disturb the re-summation) and which share of the segment it received."""
     n = len(case['lats'])
-    return case['states'] + [[float(i) for i in range(n)]], case['ints'] + [[1.0] * (n - 1)]
+    return (case['states'] + [[float(i) for i in range(n)]],
+            case['ints'] + [[float(j + 1) for j in range(n - 1)], [1.0] * (n - 1)])
+
+
+def inst_ints(case):
+    return instrumented(case)[1]
 
 
 def detect_flags(chk=None):
-    """Which of the three repairable behaviours does the tree under check have?  (clamp, fix3, fixdl)"""
+    """Which of the four repairable behaviours does the tree under check have?  (clamp, fix3, fixdl, fixz).
+    A probe that crashes counts as "as coded"; the crash itself is reported by the cases."""
     base = {'galt': None, 'gtime': None, 'alts': None, 'times': None}
+
+    def probe(case, ints, pred):
+        try:
+            return bool(pred(run_impl(case, [], ints)))
+        except Exception:  # noqa: BLE001
+            return False
     c3 = dict(base, glat=[0.0, 1.0], glon=[0.0, 1.0], lats=[0.5, 0.5], lons=[0.5, 0.5])
-    o3 = run_impl(c3, [], [[1.0]])
-    fix3 = abs(sum(o3['ints'][0]) - 1.0) < 1e-12
+    fix3 = probe(c3, [[1.0]], lambda o: abs(sum(o['ints'][0]) - 1.0) < 1e-12)
     c20 = dict(base, glat=[0.0, 1.0, 2.0], glon=[0.0, 1.0, 2.0], lats=[0.0, 0.0], lons=[0.5, 0.75])
-    o20 = run_impl(c20, [], [])
-    clamp = o20['lat'] == [0.0]
+    clamp = probe(c20, [], lambda o: o['lat'] == [0.0])
     cdl = dict(base, glat=[0.0, 0.1, 0.2, 0.3, 0.4], glon=[-PI, 0.0, PI], lats=[0.05, 0.35],
                lons=[PI - 0.1, -PI + 0.1])
-    odl = run_impl(cdl, [], [])
-    fixdl = any(lo == 0.0 and la == 0.1 for la, lo in zip(odl['lat'], odl['lon']))
-    return {'clamp': clamp, 'fix3': fix3, 'fixdl': fixdl}
+    fixdl = probe(cdl, [], lambda o: any(lo == 0.0 and la == 0.1 for la, lo in zip(o['lat'], o['lon'])))
+    cz = dict(base, glat=[0.0, 1.0], glon=[-PI, 0.0, PI], lats=[0.5, 0.5], lons=[-PI, PI])
+    fixz = probe(cz, [[1.0]], lambda o: all(x == x for x in o['ints'][0]))
+    return {'clamp': clamp, 'fix3': fix3, 'fixdl': fixdl, 'fixz': fixz}
 
 
 # ----------------------------------------------------------------------------------------------
@@ -177,7 +191,7 @@ def attach_dists(geo):
 def values_expr(geo, dds, ints, flags):
     dd_txt = '[' + '; '.join('[' + '; '.join(f'({to_coq(D)}, {_fl(ds)})' for D, ds in dd) + ']' for dd in dds) + ']'
     vs = '[' + '; '.join(_fl(v) for v in ints) + ']'
-    return (f"@values FNum {to_coq(flags['fix3'])} ({geo['status']})%Z {geo['i']}%nat {vs} {dd_txt}")
+    return (f"@values FNum {to_coq(flags['fix3'])} {to_coq(flags['fixz'])} ({geo['status']})%Z {geo['i']}%nat {vs} {dd_txt}")
 
 
 def model_outputs(geo):
@@ -233,7 +247,8 @@ def legs_of_segment(case, j, bent=False):
         lon_end, out_, in_ = B[1] + 2 * PI, PI, -PI
     else:
         lon_end, out_, in_ = B[1] - 2 * PI, -PI, PI
-    if bent:
+    if bent or lon_end == A[1]:
+        # lon_end == A[1]: both end points ON the antimeridian (-pi and +pi): the whole segment runs along it
         latx = A[0]
     else:
         latx = A[0] + (out_ - A[1]) / (lon_end - A[1]) * (B[0] - A[0])
@@ -285,6 +300,30 @@ def blocks_by_segment(out, nseg):
     return blocks, order_ok
 
 
+def blocks_by_ratio(out, nseg):
+    """C04: which pieces belong to which segment, from the integrated instrumentation alone: piece p of segment j
+    carries share_p in the all-ones variable and (j+1)*share_p in the numbering variable.  Pieces with share 0
+    carry nothing of any variable and are left out.  -> (blocks, nan_pieces); blocks is None if the ratios are
+    not segment numbers.  Pieces whose share is NaN are returned separately."""
+    ones, numb = out['ints'][-1], out['ints'][-2]
+    blocks = [[] for _ in range(nseg)]
+    nans = []
+    for p, (s1, w) in enumerate(zip(ones, numb)):
+        if s1 == 0.0 and w == 0.0:
+            continue
+        if not (s1 == s1 and w == w):
+            nans.append(p)
+            continue
+        if s1 == 0.0:
+            return None, nans
+        r = w / s1
+        j = int(round(r)) - 1
+        if abs(r - (j + 1)) > 1e-6 or not (0 <= j < nseg):
+            return None, nans
+        blocks[j].append(p)
+    return blocks, nans
+
+
 # ----------------------------------------------------------------------------------------------
 # C04 oracle: exact re-summation
 # ----------------------------------------------------------------------------------------------
@@ -298,30 +337,48 @@ def c04_oracle(case, out):
         return []
     ints = out['ints']
     probs = []
-    blocks, _ = blocks_by_segment(out, nseg)
-    if blocks is None:
-        return [('segment tags of the output are not point numbers', None)]
+    blocks, nan_pieces = blocks_by_ratio(out, nseg)
+    zero_crossing = [j for j in range(nseg) if len(legs_of_segment(case, j)) == 2 and expected_segment(case, j)[1] == 0]
+    if nan_pieces and blocks is not None:
+        if len(zero_crossing) == 1:
+            blocks[zero_crossing[0]] += nan_pieces      # as-coded pattern of FC04a: 0/0 in the split
+        else:
+            blocks = None
     L = len(out['lat'])
     for v in ints:
         if len(v) != L:
             return [(f'integrated output has length {len(v)}, cells {L}', None)]
-    f3_hits, other = [], []
+    f3_hits, z_hits, other = [], [], []
     tot_impl = [0.0] * len(ints)
     tot_want_lo = [0.0] * len(ints)
+    if blocks is None:
+        # pieces cannot be assigned to segments: check the totals against the sum of the per-segment expectations
+        for k, var in enumerate(ints):
+            vals = inst_ints(case)[k]
+            want = 0.0
+            for j in range(nseg):
+                _p, D, E = expected_segment(case, j)
+                want += vals[j] * (E if D != 0 else 1.0)
+            got = math.fsum(var)
+            if not close(got, want, rel=1e-6, abs_=1e-300) or (all(x >= 0 for x in vals) and got < sum(vals) * (1 - 1e-12)):
+                other.append(f'variable {k}: gridded total {got!r}, trajectory total {sum(vals)!r}, expected with chord excess {want!r}')
+        return [(o, None) for o in other]
     for j in range(nseg):
         _pieces, D, E = expected_segment(case, j, bent=False)
         Es = [E]
         if len(legs_of_segment(case, j)) == 2 and D != 0:
             Es.append(expected_segment(case, j, bent=True)[2])       # see design.d/C04.md: C04 does not fix where
         for k, var in enumerate(ints):                                 # the antimeridian is met (C05 does)
-            vj = (case['ints'] + [[1.0] * nseg])[k][j]
+            vj = inst_ints(case)[k][j]
             got = math.fsum(var[p] for p in blocks[j])
             tot_impl[k] += got
             tot_want_lo[k] += vj
             if D == 0:
                 ok = close(got, vj, rel=1e-9, abs_=1e-300)
                 if not ok:
-                    if got == 0.0 and vj != 0.0:
+                    if got != got and j in zero_crossing and vj == vj:
+                        z_hits.append((j, k, vj))
+                    elif got == 0.0 and vj != 0.0:
                         f3_hits.append((j, k, vj))
                     else:
                         other.append(f'segment {j} (zero length) variable {k}: pieces sum to {got!r}, value {vj!r}')
@@ -332,11 +389,15 @@ def c04_oracle(case, out):
             elif vj >= 0 and got < vj * (1 - 1e-12):
                 other.append(f'segment {j} variable {k}: pieces sum to {got!r} < segment value {vj!r}')
     for k in range(len(ints)):
-        if all(x >= 0 for x in (case['ints'] + [[1.0] * nseg])[k]) and not f3_hits:
+        if all(x >= 0 for x in inst_ints(case)[k]) and not f3_hits and not z_hits:
             if tot_impl[k] < tot_want_lo[k] * (1 - 1e-12):
                 other.append(f'variable {k}: gridded total {tot_impl[k]!r} < trajectory total {tot_want_lo[k]!r}')
     for o in other:
         probs.append((o, None))
+    if z_hits:
+        j, k, vj = z_hits[0]
+        probs.append((f'zero-length segment {j} across the antimeridian (same point given as -pi and +pi) variable {k}: '
+                      f'value {vj!r} becomes NaN (0/0 in the proportional split)', SIG_Z if not other else None))
     if f3_hits:
         j, k, vj = f3_hits[0]
         lost = math.fsum(x[2] for x in f3_hits if x[1] == k)
@@ -449,10 +510,12 @@ def gen_case(rng):
                 c = lons[-1]
             lo_, hi_ = c - span_lon, c + span_lon
         if i == 0:
-            cl = rng.uniform(glat[0], glat[-1])
+            cl = rng.uniform(max(glat[0], -LAT_MAX), min(glat[-1], LAT_MAX))
         else:
             cl = lats[-1]
-        la_lo, la_hi = cl - span_lat, cl + span_lat
+        # exact poles are outside the generated domain (see design.d/C04.md): all longitudes coincide there and
+        # a computed intersection latitude one ulp beyond 90 degrees is outside pyproj's domain
+        la_lo, la_hi = max(cl - span_lat, -LAT_MAX), min(cl + span_lat, LAT_MAX)
         if i > 0 and r < 0.26 and not dateline:
             lats.append(pick_coord(rng, glat, la_lo, la_hi, 0.3, p_low)); lons.append(lons[-1])   # noqa: E702
             kinds.append('meridian'); continue                                                    # noqa: E702
@@ -464,7 +527,7 @@ def gen_case(rng):
             ia, ib = rng.randrange(len(glat)), rng.randrange(len(glon))
             if not lowest:
                 ia, ib = max(ia, 1), max(ib, 1)
-            if abs(glon[ib] - lons[-1]) < PI:
+            if abs(glon[ib] - lons[-1]) < PI and abs(glat[ia]) <= LAT_MAX:
                 lats.append(glat[ia]); lons.append(glon[ib]); kinds.append('corner'); continue   # noqa: E702
         lats.append(pick_coord(rng, glat, la_lo, la_hi, 0.25, p_low))
         lons.append(pick_coord(rng, glon, lo_, hi_, 0.25, p_low))
@@ -562,9 +625,10 @@ def evaluate(chk: Check, cases):
             r['out'] = run_impl(case, st, iv)
             plain = run_impl(case, case['states'], case['ints'])
             o = r['out']
-            r['plain_ok'] = (plain['lat'] == o['lat'] and plain['lon'] == o['lon'] and plain['alt'] == o['alt']
-                             and plain['time'] == o['time'] and plain['states'] == o['states'][:-1]
-                             and plain['ints'] == o['ints'][:-1])
+            same = lambda a, b: json.dumps(a) == json.dumps(b)      # noqa: E731  (NaN-tolerant equality)
+            r['plain_ok'] = (same(plain['lat'], o['lat']) and same(plain['lon'], o['lon'])
+                             and same(plain['alt'], o['alt']) and same(plain['time'], o['time'])
+                             and same(plain['states'], o['states'][:-1]) and same(plain['ints'], o['ints'][:-2]))
         except Exception as e:  # noqa: BLE001
             r['error'] = f'{type(e).__name__}: {e}'
         res.append(r)
@@ -624,7 +688,7 @@ def run(chk: Check):
                         'C04 does not fix the latitude at which a crossing segment meets the antimeridian: the allowed '
                         'excess is accepted for the straight line and for the as-coded bent line (C05 decides that)']
     chk.coq_props('props/C04_Props.v')
-    cases = load_corpus('C04') + [gen_case(chk.rng) for _ in range(chk.n(300, 4000))]
+    cases = load_corpus('C04') + [gen_case(chk.rng) for _ in range(chk.n(1000, 12000))]
     check_cases(chk, cases)
 
 
